@@ -645,11 +645,7 @@ def ksig_cases(ctx, rng):
     """every number kill(2) accepts and a set it refuses, through each of the three ways to name the victim"""
     cmds = []
     for sg in KSIG_VALID + KSIG_INVALID + [rng.range(66, 100000), -rng.range(2, 100000)]:
-        hows = ["process", "pid", "grp"]
-        if ctx.quick and sg not in (0, 1, 9, 15, 19, 31, 32, 34, 63, 64, 65, -1):
-            hows = [hows[(sg + rng.below(3)) % 3], hows[(sg + 1 + rng.below(2)) % 3]]
-            if hows[0] == hows[1]: hows = hows[:1]
-        for how in hows:
+        for how in ("process", "pid", "grp"):          # every number through every way, in both tiers (~15 ms per call)
             cmds.append(f"ksig {how} {sg}")
     for sg in [0] + KSIG_INVALID:
         cmds += [f"kpid self {sg}", f"kpid none {sg}"]
@@ -867,4 +863,7 @@ def run(ctx):
                        "histories with scripted waitpid results; non-trivial = a round reaping >= 2 children. real spawns: fixed corpus of "
                        "the layouts the property names + random layouts with stdio_count 0..40 (sources among the parent's "
                        "fds 0..8 and three high fds), each also with a non-existent program; multi-child runs exiting before "
-                       "the loop runs / simultaneously / staggered; non-trivial = overlapping layout or >= 3 children")
+                       "the loop runs / simultaneously / staggered; non-trivial = overlapping layout or >= 3 children. kill: "
+                       "every number 0..64 and a set kill(2) refuses (negative, 65 = NSIG, 128, 4096, INT_MAX/INT_MIN, two random), each "
+                       "through uv_process_kill, uv_kill(pid) and uv_kill(-pid) on a detached child, judged by kill(2)'s own errno "
+                       "and by the fate of a reference child signalled without libuv; non-trivial = a number the kernel delivered")
